@@ -5,8 +5,10 @@ package main
 
 import (
 	"encoding/json"
+	"fmt"
 	"os"
 	"path/filepath"
+	"strings"
 	"sync"
 
 	"github.com/istio-ecosystem/authservice/internal"
@@ -63,4 +65,121 @@ func loaderAcceptsPrefix(prefix string) bool {
 		return true
 	}
 	return loaderAcceptsOIDC(map[string]any{"cookie_name_prefix": prefix})
+}
+
+// ---- layouts: the same effective filter written three ways --------------------------------------------------------------
+//
+// A filter's settings can come from the filter itself (`oidc`), from `default_oidc_config` with an `oidc_override` that
+// leaves the field alone, or from the `oidc_override`. What the loader decides, and the configuration in force
+// afterwards, must not depend on which of the three was used; and what is in force is what was written, byte for byte
+// (the cookie name is built from the prefix, the redirect_uri parameter of every login is the callback URI).
+
+var layoutNames = []string{"oidc", "default", "override"}
+
+func loadLayout(layout, field string, value any) (accepted bool, eff map[string]any, pnc any) {
+	base := map[string]any{
+		"authorization_uri": "https://idp.example.com/authorize", "token_uri": "https://idp.example.com/token",
+		"callback_uri": "https://app.example.com/callback", "jwks": `{"keys":[]}`, "client_id": "client", "client_secret": "secret",
+		"id_token": map[string]any{"preamble": "Bearer", "header": "authorization"},
+	}
+	doc := map[string]any{"listen_address": "0.0.0.0", "listen_port": 8080, "log_level": "info"}
+	switch layout {
+	case "oidc":
+		base[field] = value
+		doc["chains"] = []any{map[string]any{"name": "c", "filters": []any{map[string]any{"oidc": base}}}}
+	case "default":
+		base[field] = value
+		doc["default_oidc_config"] = base
+		doc["chains"] = []any{map[string]any{"name": "c", "filters": []any{map[string]any{"oidc_override": map[string]any{"client_id": "client"}}}}}
+	case "override":
+		delete(base, field)
+		doc["default_oidc_config"] = base
+		doc["chains"] = []any{map[string]any{"name": "c", "filters": []any{map[string]any{"oidc_override": map[string]any{field: value}}}}}
+	}
+	b, _ := json.Marshal(doc)
+	loaderMu.Lock()
+	defer loaderMu.Unlock()
+	if loaderDir == "" {
+		d, err := os.MkdirTemp(os.Getenv("VERIF_WORK"), "loader")
+		must(err)
+		loaderDir = d
+	}
+	path := filepath.Join(loaderDir, "layout.json")
+	must(os.WriteFile(path, b, 0o644))
+	l := internal.NewLocalConfigFileForVerif(path)
+	var err error
+	func() {
+		defer func() { pnc = recover() }()
+		err = l.Validate()
+	}()
+	if pnc != nil || err != nil {
+		return false, nil, pnc
+	}
+	if len(l.Config.GetChains()) != 1 || len(l.Config.GetChains()[0].GetFilters()) != 1 || l.Config.GetChains()[0].GetFilters()[0].GetOidc() == nil {
+		return true, map[string]any{"shape": "no resolved oidc filter"}, nil
+	}
+	o := l.Config.GetChains()[0].GetFilters()[0].GetOidc()
+	return true, map[string]any{"cookie_name_prefix": o.GetCookieNamePrefix(), "callback_uri": o.GetCallbackUri(),
+		"authorization_uri": o.GetAuthorizationUri(), "token_uri": o.GetTokenUri(), "client_id": o.GetClientId()}, nil
+}
+
+func isCookieToken(s string) bool {
+	for i := 0; i < len(s); i++ {
+		c := s[i]
+		if c <= 32 || c >= 127 || strings.IndexByte("()<>@,;:\\\"/[]?={}", c) >= 0 {
+			return false
+		}
+	}
+	return true
+}
+
+// loaderLayouts runs the probes; tag is the property on whose behalf the findings are reported.
+func loaderLayouts(r *Run, tag string) {
+	type probe struct {
+		field string
+		value string
+	}
+	var probes []probe
+	for _, p := range []string{"app1", "my-app_2", "app.1", "A~b!", "x;y", "a b", "a=b", "x; Domain=evil.example", "x=1; Domain=test; y", "ü", "tab\tbed",
+		"p|q^r", "$%&'*+-.^_`|~", "(x)", "__Host-x", "-", "a,b", "a/b", "q\"r", "{x}", "[y]", "a:b", "a@b", "a?b", "back\\slash", "\x7f"} {
+		probes = append(probes, probe{"cookie_name_prefix", p})
+	}
+	for _, u := range []string{"https://app.example.com/callback", "https://app.example.com/r%C3%A9ponse/cb", "https://app.example.com/rückruf",
+		"https://app.example.com/cb|v2", "https://app.example.com/oauth%20cb", "https://app.example.com/oauth cb", "HTTPS://app.example.com/cb",
+		"https://app.example.com/a^b", "https://app.example.com/{id}/cb", "https://app.example.com/cb?x=1&y=%26", "https://APP.example.com:443/cb",
+		"https://app.example.com/cb/../cb2", "https://app.example.com//cb", "https://app.example.com/cb%2Fx", "https://app.example.com/`cb`",
+		"https://xn--bcher-kva.example/é/callback", "https://bücher.example/callback", "https://app.example.com/", "https://app.example.com", "::bad"} {
+		probes = append(probes, probe{"callback_uri", u})
+	}
+	for _, p := range probes {
+		var verdicts []bool
+		for _, layout := range layoutNames {
+			ok, eff, pnc := loadLayout(layout, p.field, p.value)
+			r.Dist["layout:"+layout+":"+map[bool]string{true: "accepted", false: "rejected"}[ok]]++
+			if pnc != nil {
+				r.Violate(tag+" loading a configuration document panicked", map[string]any{"layout": layout, "field": p.field, "value": p.value, "panic": fmt.Sprint(pnc)})
+				return
+			}
+			verdicts = append(verdicts, ok)
+			if !ok {
+				continue
+			}
+			if got, _ := eff[p.field].(string); got != p.value {
+				r.Violate(tag+" the configuration in force after loading is not the one written: "+p.field+" was changed by the loader (the cookie name is built from the prefix; the redirect_uri of every login is the callback URI and must decode to exactly the configured value)",
+					map[string]any{"layout": layout, "field": p.field, "written": p.value, "in_force": eff[p.field]})
+				return
+			}
+			if p.field == "cookie_name_prefix" && !isCookieToken(p.value) {
+				r.Violate(tag+" a cookie_name_prefix that is not an RFC 6265 token was accepted: the Set-Cookie of the session cookie can be given extra attributes or a different name through it",
+					map[string]any{"layout": layout, "prefix": p.value})
+				return
+			}
+		}
+		if verdicts[0] != verdicts[1] || verdicts[0] != verdicts[2] {
+			r.Violate(tag+" the loader's verdict depends on where a setting is written (filter itself / default_oidc_config / oidc_override)",
+				map[string]any{"field": p.field, "value": p.value, "accepted_as_oidc": verdicts[0], "accepted_from_default": verdicts[1], "accepted_from_override": verdicts[2]})
+			return
+		}
+		r.Case("layout:" + p.field + ":" + p.value)
+	}
 }
